@@ -412,6 +412,7 @@ func (c logCore) Write(e zapcore.Entry, fs []zapcore.Field) error {
 		f.AddTo(enc)
 	}
 	m := enc.Fields
+	c.n.mon.noteTaken(c.n)
 	if e.Message == "received message" {
 		c.n.mon.noteReceive(c.n, map[string]int{"ChangeView": 0, "PrepareRequest": 32, "PrepareResponse": 33, "Commit": 48, "PreCommit": 49, "RecoveryRequest": 64, "RecoveryMessage": 65}[fmt.Sprint(m["type"])], uint16(toInt(m["from"])), uint32(toInt(m["height"])), byte(toInt(m["view"])))
 	}
